@@ -77,7 +77,7 @@ def sized_cases(rng, tier):
 
 
 def gen_ser_rt(rng, tier):
-    n = 2500 if tier == "quick" else 60000
+    n = 2000 if tier == "quick" else 60000
     for _ in range(n):
         big = rng.random() < 0.5
         pos = G.rand_pos(rng)
@@ -162,7 +162,7 @@ def gen_depth(rng, tier):
 
 
 def gen_hostile(rng, tier):
-    n = 1800 if tier == "quick" else 50000
+    n = 1100 if tier == "quick" else 50000
     for _ in range(n):
         big = rng.random() < 0.5
         pos = rng.choice([0, 0, 0, 1, 3, 4, 8, 9])
